@@ -329,4 +329,21 @@ PROPS = {
             "in this sandbox the native driver runs against devshim/cachebox (pure Python stand-in written from those sources), not the compiled cachebox",
         ],
     },
+    "C02": {
+        "category": "other",
+        "harness_modes": ["crosscheck"],
+        "explanation": "Fragment. Proved for all strings and lists: _is_parent_tag(tag, parent) is true exactly when parent has no more dot-separated components than tag and "
+        "the leading components of tag are the components of parent (component-wise, so 0.1 is not a parent of 0.10); Combinator._add_to_port appends the token to the list "
+        "of its port (creating it) and touches no other port; CartesianProductCombinator._add_to_port appends unless a token with the same tag is already there, in which case "
+        "the list is unchanged (loop invariant). NOT decided by proof: combine / _product / _add_to_list / dict_product are (async) generators over nested dict-of-dict-of-deque "
+        "state, outside the verifier's subset; the statement's main clauses — exactly one combination per deepest tag with broadcasting of shallower tags, the full cross "
+        "product with composite tags, composition of nested combinators, and independence from the arrival order — are decided only by the BOUNDED run-time check of "
+        "harness/C02.py: generated token streams (0..4 tokens per port, tag depth 1..3, indices 0/1/2/10/11, parent/child mixes, three ports at three depths), flat and nested "
+        "trees (dot, cartesian, dot over cartesian), EVERY arrival permutation up to 6 tokens and 150 sampled orders beyond, compared with the combinations the statement "
+        "prescribes. A cartesian product over an inner combinator fails for every input (recorded finding).",
+        "assumptions": [
+            "A-STR str.split is abstracted (number of parts, i-th part)",
+            "collections.deque() is modelled as a list (append, iteration); the dict of port lists is insertion-ordered",
+        ],
+    },
 }
